@@ -1,7 +1,9 @@
+pub mod c01;
 pub mod c03;
 pub mod c04;
 pub mod c06;
 pub mod c07;
+pub mod c14;
 pub mod common;
 
 use crate::engine::Tier;
@@ -10,11 +12,13 @@ use crate::findings::Findings;
 pub fn run(prop: &str, tier: Tier, seed: u64) -> i32 {
     let findings = Findings::load();
     match prop {
+        "C01" => c01::run(tier, seed, &findings),
         "C03" => c03::run(tier, seed, &findings),
         "C04" => c04::run("C04", tier, seed, &findings),
         "C05" => c04::run("C05", tier, seed, &findings),
         "C06" => c06::run(tier, seed, &findings),
         "C07" => c07::run(tier, seed, &findings),
+        "C14" => c14::run(tier, seed, &findings),
         _ => {
             eprintln!("gev: unknown property {}", prop);
             2
@@ -34,11 +38,13 @@ pub fn replay(path: &str) -> i32 {
     let findings = Findings::load();
     let prop = v["property"].as_str().unwrap_or("").to_string();
     match prop.as_str() {
+        "C01" => c01::replay(&v, path, &findings),
         "C03" => c03::replay(&v, path, &findings),
         "C04" => c04::replay("C04", &v, path, &findings),
         "C05" => c04::replay("C05", &v, path, &findings),
         "C06" => c06::replay(&v, path, &findings),
         "C07" => c07::replay(&v, path, &findings),
+        "C14" => c14::replay(&v, path, &findings),
         _ => {
             eprintln!("gev: unknown property in replay file");
             2
